@@ -7,7 +7,7 @@ from engine.extract import REPO
 
 LEVEL = "other"
 MIN_OBLIGATIONS = 25
-TECHNIQUE = "finite tables (level switch vs documentation table; skipped-names set vs dedicated-slot set evaluated by CFG projection per name) + def-use provenance of every event field + containment/ordering of the nested JSON objects; bulk-import idiom and own-key-before-import ordering rule under extra; byte-domain cut rule for the fingerprint; level and fingerprint[0] tabulated by cases for the five message types when the mapping is not a switch"
+TECHNIQUE = "finite tables (level switch vs documentation table; skipped-names set vs dedicated-slot set evaluated by CFG projection per name) + def-use provenance of every event field + containment/ordering of the nested JSON objects; bulk-import idiom and own-key-before-import ordering rule under extra; byte-domain cut rule for the fingerprint; level and fingerprint[0] tabulated by cases for the five message types when the mapping is not a switch; persistent-event-object rule (every key written or removed on every path)"
 LEVEL_TEXT = ("Decides for all messages and attribute sets: the level mapping (code and documentation), that the set of attribute names skipped under 'extra' equals the set of names "
               "that have a dedicated tag/context slot (so each custom attribute appears exactly once), that every other attribute is inserted unconditionally, and the provenance, "
               "guards and order of event_id / timestamp / level / message.formatted / logger / fingerprint, including that each nested object is attached after it is filled. "
